@@ -28,6 +28,7 @@ Next ==
              <<"C12.LargerSidePaysEffect", step => C12_LargerSidePaysEffect(pre.m, e)>>,
              <<"C12.IndicesMonotone", step => C12_IndicesMonotone(pre.m, e.m)>>,
              <<"C12.PendingNonNeg",  C12_PendingNonNeg(e.m, e.c, e.ps) /\ C12_PendingNonNegReal(e.ps)>>,
+             <<"C12.PendingNonNegPartial", C12_PendingNonNegPartial(e.pp)>>,
              <<"C13.FactorMonotone", step => C13_FactorMonotone(pre.m, e.m)>>,
              <<"C13.TotalBorrowing", C13_TotalBorrowing(e.m, e.ps)>>,
              <<"C13.PendingFees",    C13_PendingState(e.m) /\ C13_PendingReal(e.b)>> >>)
